@@ -17,14 +17,71 @@ CALLEES = {
 class Sites:
     def __init__(self):
         self.calls = {}  # id(call node) -> (node, problems)
+        self.funcs = []  # private helpers interpreted in place
 
 
-def make_handler(f, sites, symmetric=True, extra_forward=()):
+def make_handler(f, sites, symmetric=True, extra_forward=(), repo=None):
     """Handler for the density primitives: returns the atom and records forwarding obligations per call site."""
     passthrough = ["one_density_matrix", "basis", "points"]
 
+    def inline_helper(interp, e, d, g):
+        """A private helper of the module: interpreted in place.  The pass-through inputs (density matrix, basis, points, transform)
+        must reach the helper's parameters of the same name unchanged - a parameter left to its default is a dropped input."""
+        a = g.node.args
+        if a.vararg or a.kwarg or a.kwonlyargs or a.posonlyargs:
+            interp.err(f"helper {d} with */** parameters", e)
+        names = [x.arg for x in a.args]
+        defaults = dict(zip(names[len(names) - len(a.defaults):], a.defaults))
+        bound = {}
+        for nm, arg in zip(names, e.args):
+            bound[nm] = arg
+        if len(e.args) > len(names):
+            interp.err(f"too many arguments in the call of {d}", e)
+        for k in e.keywords:
+            if k.arg is None or k.arg not in names or k.arg in bound:
+                interp.err(f"keyword `{k.arg}` in the call of {d}", e)
+            bound[k.arg] = k.value
+        problems = []
+        env2 = {}
+        for nm in names:
+            must = nm in passthrough or nm == "transform" or nm in extra_forward
+            if nm in bound:
+                if must:
+                    if ast.unparse(bound[nm]) != nm:
+                        problems.append(f"`{nm}` of the helper receives `{ast.unparse(bound[nm])[:40]}`")
+                    env2[nm] = nm
+                else:
+                    env2[nm] = interp.expr(bound[nm])
+            elif nm in defaults:
+                if must:
+                    problems.append(f"`{nm}` is not forwarded to the helper ({nm} is left to its default {ast.unparse(defaults[nm])})")
+                    env2[nm] = nm
+                else:
+                    try:
+                        env2[nm] = ast.literal_eval(defaults[nm])
+                    except Exception:
+                        interp.err(f"default of `{nm}` in {d}", e)
+            else:
+                interp.err(f"the call of {d} misses `{nm}`", e)
+        if nm_ := [n_ for n_ in ("alpha", "beta") if n_ in names and n_ not in bound]:
+            interp.err(f"{d}: {nm_} left to a default", e)
+        sites.calls[id(e)] = (e, problems, d)
+        if getattr(interp, "depth", 0) >= 2:
+            interp.err("helpers nested too deeply", e)
+        sub = TermInterp(g, env2, make_handler(g, sites, symmetric, extra_forward, repo), symmetric=symmetric)
+        sub.depth = getattr(interp, "depth", 0) + 1
+        sites.funcs.append(g)
+        sub.run()
+        if len(sub.returns) != 1:
+            interp.err(f"the helper {d} does not have exactly one return", e)
+        return sub.returns[0][1]
+
     def handler(interp, e, d):
         short = d.split(".")[-1] if d else None
+        if short not in CALLEES and d and "." not in d and d.startswith("_") and repo is not None:
+            g = repo.resolve_name(f.module, d, f)
+            if hasattr(g, "node") and g.module is f.module:
+                return inline_helper(interp, e, d, g)
         if short not in CALLEES:
             return NotImplemented
         kind, nvec = CALLEES[short]
@@ -67,7 +124,7 @@ def run_function(repo, name, R, sites, symmetric_flag=False, dm_symmetric=True):
     for need in ("one_density_matrix", "basis", "points", "alpha", "beta", "transform"):
         if need not in f.params:
             raise AnalysisError("TERMALG", f"parameter `{need}` of {name} not found", f.where())
-    it = TermInterp(f, env, make_handler(f, sites, dm_symmetric), symmetric=dm_symmetric)
+    it = TermInterp(f, env, make_handler(f, sites, dm_symmetric, repo=repo), symmetric=dm_symmetric)
     it.run()
     if len(it.returns) != 1:
         raise AnalysisError("TERMALG", f"{name}: expected one return", f.where())
@@ -179,7 +236,7 @@ def run(repo, R):
                 where=ff.where(st), expected=f"coefficient with a root at {g.var} = {g.value}", found=[str(b[1]) for b in bad][:3])
     # ---------------------------------------------------------------- forwarding
     for cid, (node, problems, short) in sites.calls.items():
-        ff = [x for x in (f, f2, f3) if any(n is node for n in ast.walk(x.node))][0]
+        ff = [x for x in (f, f2, f3) + tuple(sites.funcs) if any(n is node for n in ast.walk(x.node))][0]
         R.check(not problems, "FWD", ff.site, f"{short}(...) at line-site {ast.unparse(node.args[0])[:40] if node.args else ''}#{node.lineno - ff.node.lineno}",
                 f"call of {short}: " + "; ".join(problems), where=ff.where(node), expected="(…, one_density_matrix, basis, points, transform=transform)")
     R.floor("GUARD-ROOT", n_g, 8, "guarded updates")
